@@ -136,6 +136,36 @@ func (g *predGen) pred(depth int, keyBias float64) string {
 }
 
 func topPred(g *predGen) string {
+	if g.r.Chance(0.01) {
+		// a long chain: many disjuncts (or conjuncts), one of them compound
+		n := g.r.Range(17, 24)
+		op := pick(g.r, []string{" | ", " or ", " | ", " & "})
+		parts := make([]string, n)
+		pointOnly := g.r.Bool() // only equalities / IN lists: the whole clause pins a literal key set
+		for i := range parts {
+			if pointOnly {
+				if g.r.Bool() {
+					parts[i] = "key = " + quote(g.lit())
+				} else {
+					parts[i] = "key in " + inList([]string{g.lit(), g.lit()})
+				}
+			} else {
+				parts[i] = g.keyAtom()
+			}
+		}
+		if pointOnly {
+			parts[g.r.Intn(n)] = "(key = " + quote(g.lit()) + " & " + g.opaqueAtom() + ")"
+			if g.r.Bool() {
+				parts[0] = "(key = " + quote(g.lit()) + " & " + g.opaqueAtom() + ")"
+			}
+			return strings.Join(parts, pick(g.r, []string{" | ", " or "}))
+		}
+		parts[g.r.Intn(n)] = "(" + g.keyAtom() + " & " + g.opaqueAtom() + ")"
+		if g.r.Bool() {
+			parts[0] = "(" + g.keyAtom() + " & " + g.opaqueAtom() + ")"
+		}
+		return strings.Join(parts, op)
+	}
 	p := g.pred(g.r.Range(0, 3), 0.7)
 	// strip one redundant outer pair of parentheses now and then: both forms must behave alike
 	if strings.HasPrefix(p, "(") && strings.HasSuffix(p, ")") && g.r.Bool() && balancedOuter(p) {
